@@ -783,6 +783,24 @@ fn positional(txt: String, lc: &rewrite::LiftedClosure) -> String {
     let mut t = txt;
     let order = POS_ORDER.with(|p| p.borrow().clone());
     let caps: Vec<&String> = if order.is_empty() { lc.captures.iter().collect() } else { order.iter().filter_map(|i| lc.captures.get(*i)).collect() };
+    // L1t: the enclosing scope gives the capture a type other than the one the contract signature declares for `$k` (the captured value
+    // was wrapped or replaced): the signature takes the type the code has; the contract's clauses go through its view functions
+    let idxs: Vec<usize> = if order.is_empty() { (0..lc.captures.len()).collect() } else { order.clone() };
+    let norm = |x: &str| -> String { let x: String = x.chars().filter(|c| !c.is_whitespace()).collect(); x.trim_start_matches("&mut").trim_start_matches('&').to_string() };
+    for (i, ci) in idxs.iter().enumerate() {
+        let Some(known) = lc.cap_types.get(*ci).cloned().flatten().filter(|k| !k.starts_with('?')) else { continue; };
+        let key = format!("${}:", i);
+        let Some(pos) = t.find(&key) else { continue; };
+        let start = pos + key.len(); let rest = &t[start..];
+        let mut depth = 0i32; let mut len = 0usize;
+        for ch in rest.chars() { match ch { '<' | '(' | '[' => depth += 1, '>' | ']' => depth -= 1, ')' => { if depth == 0 { break; } depth -= 1; } ',' if depth == 0 => break, _ => {} } len += ch.len_utf8(); }
+        let declared = rest[..len].to_string();
+        if norm(&declared) != norm(&known) {
+            let d = declared.trim_start(); let prefix = if d.starts_with("&mut") { "&mut " } else if d.starts_with('&') { "&" } else { "" };
+            eprintln!("hx: note: rule L1t: capture `{}` of `{}` has type `{}` now (contract signature: `{}`)", lc.captures[*ci], lc.name, known, declared.trim());
+            t = format!("{} {}{}{}", &t[..start], prefix, known, &t[start + len..]);
+        }
+    }
     for (i, c) in caps.iter().enumerate().rev() { t = t.replace(&format!("${}", i), &(if c.as_str() == "self" { "this".to_string() } else { c.replace("self.", "self_") })); }
     t
 }
